@@ -101,3 +101,51 @@ func verifC14Stream(K int) {
 func VerifHarness_C14_Stream_1() { verifC14Stream(1) }
 func VerifHarness_C14_Stream_2() { verifC14Stream(2) }
 func VerifHarness_C14_Stream_3() { verifC14Stream(3) }
+
+
+// C14-O2b: every container independently has a healthy, empty or broken
+// stream (broken at its first frame or after a good one): the query fails iff
+// some stream is broken, whatever the other containers look like, and every
+// reader is closed.
+func verifC14StreamMix(K int) {
+	fc := verifInventory(K)
+	anyFault := false
+	for j := 0; j < K; j++ {
+		good := verifFrame(1, "2024-01-02T03:04:0"+strconv.Itoa(j)+"Z", "a"+strconv.Itoa(j))
+		switch vsymChoice("stream", 6) {
+		case 0: // healthy (two frames, as built)
+		case 1: // empty log
+			fc.streams[j] = nil
+		case 2: // daemon error frame first
+			fc.streams[j] = verifFrame(3, "2024-01-02T03:04:30Z", "boom")
+			anyFault = true
+		case 3: // first frame cut inside its body
+			fc.streams[j] = good[:len(good)-2]
+			anyFault = true
+		case 4: // read error before the first byte
+			fc.streams[j] = nil
+			fc.failRead = j
+			anyFault = true
+		default: // a good frame, then a frame with an unparsable timestamp
+			fc.streams[j] = append(good, verifFrame(1, "yesterday", "x")...)
+			anyFault = true
+		}
+	}
+	query := []string{`{container_image="img"}`, `count_over_time({container_image="img"}[1m])`}[vsymChoice("query", 2)]
+	q := &Querier{client: fc}
+	e := logqlengine.NewEngine(q, logqlengine.Options{TracerProvider: noop.NewTracerProvider()})
+	const t0 = int64(1704164640) * 1e9
+	_, err := e.Eval(context.Background(), query, logqlengine.EvalParams{Start: otelstorage.Timestamp(t0), End: otelstorage.Timestamp(t0 + 60e9), Step: 30 * time.Second, Limit: -1})
+	if anyFault {
+		vsymAssert(err != nil, "a broken stream in any container makes the query fail, whatever the other containers hold")
+	} else {
+		vsymAssert(err == nil, "healthy and empty logs evaluate without error")
+	}
+	for i := 0; i < K; i++ {
+		vsymAssert(fc.opened[i] == fc.closed[i], "every opened log reader is closed when evaluation returns")
+	}
+	vsymReach("C14_stream_mix")
+}
+
+func VerifHarness_C14_StreamMix_2() { verifC14StreamMix(2) }
+func VerifHarness_C14_StreamMix_3() { verifC14StreamMix(3) }
